@@ -5,7 +5,7 @@ import DarkluaModel.Shared.VisitorSound.Heap.R3
 namespace DarkluaModel.Sem.Heap
 variable {cx : Cx}
 
-def HSound (Q : QRel) (cx : Cx) : List String → Node → Node → List String → Prop
+def HSound (Q : QRel) (cx : Cx) : List DName → Node → Node → List DName → Prop
   | D, .e x, .e y, _ => SoundE Q cx D x y
   | D, .t x, .t y, _ => SoundT Q cx D x y
   | D, .es x, .es y, _ => SoundEs Q cx D x y
@@ -24,7 +24,8 @@ def HSound (Q : QRel) (cx : Cx) : List String → Node → Node → List String 
 theorem HQ_refl : QRefl cx (HQ cx) := by
   intro D f h
   cases f with
-  | mk ps v vt r g a b => exact .fnBody rfl (.genB fun Q hq => reflB hq b D (NoRefF.mk.mp h))
+  | mk ps v vt r g a b =>
+    exact .fnBody rfl (NoWat.names (NoRefF.mk.mp h).1) (.genB fun Q hq => reflB hq b D (NoRefF.mk.mp h).2)
 
 theorem HR.es_nil_iff {D xs xs' D'} (h : HR cx D (.es xs) (.es xs') D') : xs = [] ↔ xs' = [] := by
   cases h <;> simp
@@ -46,8 +47,8 @@ theorem fund {D a b D'} (h : HR cx D a b D') : HSound (HQ cx) cx D a b D' := by
   | genL h => exact h (HQ cx) HQ_refl
   | genB h => exact h (HQ cx) HQ_refl
   | genRep h => exact h (HQ cx) HQ_refl
-  | dropLocal hp _ ih => exact dropLocal_sound hp ih
-  | addLocal hp _ ih => exact addLocal_sound hp ih
+  | dropLocal hp hw _ ih => exact dropLocal_sound hp hw ih
+  | addLocal hp hw _ ih => exact addLocal_sound hp hw ih
   | paren _ ih => exact SoundE.paren ih
   | un _ ih => exact SoundE.un ih
   | bin _ _ ih1 ih2 => exact SoundE.bin ih1 ih2
@@ -76,19 +77,19 @@ theorem fund {D a b D'} (h : HR cx D a b D') : HSound (HQ cx) cx D a b D' := by
   | tField _ ih => exact SoundT.field ih
   | tIndex _ _ ih1 ih2 => exact SoundT.index ih1 ih2
   | tNonLv h h' => exact SoundT.nonLv h h'
-  | fnBody _ _ _ => trivial
+  | fnBody _ _ _ _ => trivial
   | assign _ _ ih1 ih2 => exact SoundS.assign ih1 ih2
   | cassign _ _ ih1 ih2 => exact SoundS.cassign ih1 ih2
   | callStmt _ ih => exact SoundS.callStmt ih
   | doBlock _ ih => exact SoundS.doBlock ih
   | function hr h _ => exact SoundS.function (Q := HQ cx) hr h
-  | gfor hn _ _ ih1 ih2 => exact SoundS.gfor hn ih1 ih2
-  | nforNone hn _ _ _ ih1 ih2 ih3 => exact SoundS.nforNone hn ih1 ih2 ih3
-  | nforSome hn _ _ _ _ ih1 ih2 ih3 ih4 => exact SoundS.nforSome hn ih1 ih2 ih3 ih4
+  | gfor hn hw _ _ ih1 ih2 => exact SoundS.gfor hn hw ih1 ih2
+  | nforNone hn hw _ _ _ ih1 ih2 ih3 => exact SoundS.nforNone hn hw ih1 ih2 ih3
+  | nforSome hn hw _ _ _ _ ih1 ih2 ih3 ih4 => exact SoundS.nforSome hn hw ih1 ih2 ih3 ih4
   | ifsNone _ ih => exact SoundS.ifsNone ih
   | ifsSome _ _ ih1 ih2 => exact SoundS.ifsSome ih1 ih2
-  | localAssign hn _ ih => exact SoundS.localAssign hn ih
-  | localFn h _ => exact SoundS.localFn (Q := HQ cx) h
+  | localAssign hn hw _ ih => exact SoundS.localAssign hn hw ih
+  | localFn hw h _ => exact SoundS.localFn (Q := HQ cx) hw h
   | rep _ _ ih1 ih2 => exact SoundRep.mk ih1 ih2
   | repeat_ _ ih => exact SoundS.repeat_ ih
   | while_ _ _ ih1 ih2 => exact SoundS.while_ ih1 ih2
@@ -106,7 +107,7 @@ theorem fundB {D b b' D'} (h : HR cx D (.b b) (.b b') D') : SoundB (HQ cx) cx D 
 
 /-! ### call levels -/
 
-theorem RRel.retWrap {N : NumOps} {Q : QRel} {β : CellRel} {D' : List String} {r r' : Res N (Ctl N)} :
+theorem RRel.retWrap {N : NumOps} {Q : QRel} {β : CellRel} {D' : List DName} {r r' : Res N (Ctl N)} :
     RRel Q cx β (ACtl cx D') r r' →
     RRel Q cx β AEq (match r with
         | .ok (.ret vs) σ2 => (Res.ok vs σ2 : Res N (List (Val N)))
@@ -141,32 +142,38 @@ theorem callClosure_ok {N : NumOps} (ρ : ExtOracle N) : ∀ n, CallOK (HQ cx) c
     simp only [] at hv hb he
     subst hv
     cases hb with
-    | @fnBody _ ps ps' v vt vt' r r' g g' a a' b b' D' hn hbb =>
+    | @fnBody _ ps ps' v vt vt' r r' g g' a a' b b' D' hn hwp hbb =>
       simp only [callClosure, hn]
-      obtain ⟨β1, h1, hs1, he1⟩ := hs.bindLocals (List.map TName.name ps') args he
+      obtain ⟨β1, h1, hs1, he1⟩ := hs.bindLocals (List.map TName.name ps') hwp args he
       refine RRel.mono h1 (RRel.retWrap (D' := D') ?_)
       exact (fundB hbb).2 N _ ρ n _ _ _ _ _ (callClosure_ok ρ n) hs1 ⟨rfl, he1⟩
 
 /-- the empty injection -/
 def emptyRel : CellRel := fun _ _ => False
 
-theorem SRel.init {N : NumOps} (externs : List String) :
-    SRel (HQ cx) cx emptyRel (initState externs : State N) (initState externs) where
+/-- the initial dead set: the watched globals -/
+def watD (cx : Cx) : List DName := cx.W.map DName.wat
+
+theorem LocOK.init {cx : Cx} {β : CellRel} : LocOK cx β (watD cx) [] [] :=
+  ⟨fun _ _ => by simp only [lookupAssoc, OptRel], fun _ hn => List.mem_map_of_mem hn,
+    fun _ _ => ⟨rfl, rfl⟩⟩
+
+theorem SRel.init {N : NumOps} (σ : State N) (hG : ∀ p ∈ cx.G N, σ.getGlobal p.1 = p.2) (hc : σ.cells = [])
+    (hcl : σ.closures = []) : SRel (HQ cx) cx emptyRel σ σ where
   globals := rfl
   tables := rfl
   trace := rfl
+  ginv := hG
   inj := fun h => h.elim
   bound := fun h => h.elim
   cell := fun h => h.elim
-  closures := .nil
+  closures := by rw [hcl]; exact .nil
 
-theorem runChunk_rel {N : NumOps} (ρ : ExtOracle N) (n : Nat) {b b' : Block} {D' : List String}
-    (h : HR cx [] (.b b) (.b b') D') {β : CellRel} {σ σ' : State N} (hs : SRel (HQ cx) cx β σ σ') :
+theorem runChunk_rel {N : NumOps} (ρ : ExtOracle N) (n : Nat) {b b' : Block} {D' : List DName}
+    (h : HR cx (watD cx) (.b b) (.b b') D') {β : CellRel} {σ σ' : State N} (hs : SRel (HQ cx) cx β σ σ') :
     RRel (HQ cx) cx β AEq (runChunk ρ n b σ) (runChunk ρ n b' σ') := by
   unfold runChunk
-  refine RRel.retWrap ((fundB h).2 N _ ρ n _ _ _ _ _ (callClosure_ok ρ n) hs ⟨rfl, ?_⟩)
-  intro m _
-  simp only [lookupAssoc, OptRel]
+  exact RRel.retWrap ((fundB h).2 N _ ρ n _ _ _ _ _ (callClosure_ok ρ n) hs ⟨rfl, LocOK.init⟩)
 
 theorem observe_rel {N : NumOps} {β : CellRel} {r r' : Res N (List (Val N))} (h : RRel (HQ cx) cx β AEq r r') :
     observe r' = observe r := by
@@ -184,7 +191,17 @@ theorem observe_rel {N : NumOps} {β : CellRel} {r r' : Res N (List (Val N))} (h
 outcome (returned canonical values / raised value, trace of external calls) for every number
 model, oracle, call level and extern list. -/
 theorem runProgram_hr {N : NumOps} (ρ : ExtOracle N) (n : Nat) (externs : List String) {b b' : Block}
-    {D' : List String} (h : HR cx [] (.b b) (.b b') D') : runProgram ρ n externs b' = runProgram ρ n externs b :=
-  observe_rel (runChunk_rel ρ n h (SRel.init externs))
+    {D' : List DName} (h : HR cx (watD cx) (.b b) (.b b') D')
+    (hG : ∀ p ∈ cx.G N, (initState externs : State N).getGlobal p.1 = p.2) :
+    runProgram ρ n externs b' = runProgram ρ n externs b :=
+  observe_rel (runChunk_rel ρ n h (SRel.init _ hG rfl rfl))
+
+/-- the same from any initial state without cells and closures in which the watched-global facts hold
+("execution in a modified environment") -/
+theorem runChunk_hr {N : NumOps} (ρ : ExtOracle N) (n : Nat) {b b' : Block} {D' : List DName}
+    (h : HR cx (watD cx) (.b b) (.b b') D') (σ : State N) (hG : ∀ p ∈ cx.G N, σ.getGlobal p.1 = p.2)
+    (hc : σ.cells = []) (hcl : σ.closures = []) :
+    observe (runChunk ρ n b' σ) = observe (runChunk ρ n b σ) :=
+  observe_rel (runChunk_rel ρ n h (SRel.init σ hG hc hcl))
 
 end DarkluaModel.Sem.Heap
